@@ -24,7 +24,8 @@ repo = sys.argv[1] if len(sys.argv) > 1 else "/repo"
 outp = sys.argv[2] if len(sys.argv) > 2 else "GenAgg.lean"
 
 # order matters: a function may call the ones before it
-FNS = ["vsum", "vmean", "vmean_var", "vvar", "vstd", "vskew", "vmax", "vmin", "count_none", "vcov", "vcorr_pearson"]
+FNS = ["vsum", "vmean", "vmean_var", "vvar", "vstd", "vskew", "vmax", "vmin", "count_none", "vcov", "vcorr_pearson",
+       "count_valid", "vfirst", "vlast", "vcount_value", "vargmax", "vargmin"]
 
 
 def ret_type(sig):
@@ -34,8 +35,10 @@ def ret_type(sig):
         return "OptF"
     if t == "(f64,f64)":
         return ("tuple", ("OptF", "OptF"))
-    if t in ("Option<T::Inner>", "Option<T>"):
+    if t == "Option<T::Inner>":
         return "Elem"
+    if t == "Option<T>":
+        return ("opt", "Elem")
     if t == "Option<usize>":
         return "OptNat"
     if t == "usize":
@@ -43,11 +46,15 @@ def ret_type(sig):
     raise C.Unsupported(f"return type {t}")
 
 
-def trait_src(src):
-    """text of `pub trait AggValidBasic … { … }`"""
-    m = re.search(r"pub trait AggValidBasic\b", src)
+# functions of `AggValidExt` (tea-agg/src/lib.rs), translated after the ones above
+EXT_FNS = ["vkurt"]
+
+
+def trait_src(src, trait="AggValidBasic"):
+    """text of `pub trait <trait> … { … }`"""
+    m = re.search(r"pub trait " + trait + r"\b", src)
     if not m:
-        raise C.Unsupported("trait AggValidBasic not found")
+        raise C.Unsupported(f"trait {trait} not found")
     i = src.index("{", m.end())
     depth, j = 0, i
     while j < len(src):
@@ -83,21 +90,37 @@ def fn_src(tsrc, name):
 def translate(name, sig, body_src, siblings):
     rt = ret_type(sig)
     params = re.findall(r"\b(\w+)\s*:\s*usize\b", sig.split("->")[0])
+    eparams = re.findall(r"\b(\w+)\s*:\s*T\b(?!:)", sig.split("->")[0].split("(", 1)[1])
     two = bool(re.search(r"\bother\s*:", sig))
     blk = C.P(C.tokenize(body_src)).block()
-    em = C.Emit()
-    em.siblings = siblings
-    em.nan_vars = C.nan_assigned(blk)
-    env = {p: "Nat" for p in params}
-    txt, ty = em.stmts(blk[1], blk[2], env, [], rt)
+    # `let mut x = None;` without annotation: typed by trying the two option types the subset has
+    untyped = [st[1][1] for st in blk[1] if st[0] == "let" and st[1][0] == "pvar" and st[3] == ("path", "None")
+               and not (len(st) > 4 and st[4])]
+    import itertools
+    last = None
+    for combo in itertools.product(("Elem", "OptNat"), repeat=len(untyped)):
+        em = C.Emit()
+        em.siblings = siblings
+        em.nan_vars = C.nan_assigned(blk)
+        em.none_types = dict(zip(untyped, combo))
+        env = {p: "Nat" for p in params}
+        env.update({p: "Elem" for p in eparams})
+        try:
+            txt, ty = em.stmts(blk[1], blk[2], env, [], rt)
+            break
+        except C.Unsupported as ex:
+            last = ex
+    else:
+        raise last
     if ty == "Rat" and rt == "OptF":
         raise C.Unsupported("float result not lifted")
     if ty != rt and not (ty == "Elem" and rt == "OptF") and not (ty == "OptF" and rt == "Elem"):
         raise C.Unsupported(f"result type {ty}, declared {rt}")
     L = [f"namespace {name}"]
-    ps = "".join(f" ({C.lname(p)} : Nat)" for p in params)
+    ps = "".join(f" ({C.lname(p)} : Option Rat)" for p in eparams) + "".join(f" ({C.lname(p)} : Nat)" for p in params)
     ys = " (ys : List (Option Rat))" if two else ""
-    L.append(f"/-- `{name}` of tea-core/src/agg.rs, in source order -/")
+    where = "tea-core/src/agg.rs" if name in FNS else "tea-agg/src/lib.rs"
+    L.append(f"/-- `{name}` of {where}, in source order -/")
     L.append(f"def run (sqrt : Rat → Rat) (xs : List (Option Rat)){ys}{ps} : {C.ty_lean(rt)} :=")
     L.append("  let _ := sqrt; let _ := xs")
     L.append(C.indent(txt, 2))
@@ -122,12 +145,20 @@ def main():
     except Exception as ex:
         tsrc = None
         out.append(f"/- UNPARSED: {ex} -/")
+    try:
+        esrc = open(os.path.join(repo, "tea-agg/src/lib.rs"), encoding="utf-8", errors="replace").read()
+        esrc = re.sub(r"//[^\n]*", "", esrc.split("#[cfg(test)]")[0])
+        etsrc = trait_src(esrc, "AggValidExt")
+    except Exception as ex:
+        etsrc = None
+        out.append(f"/- UNPARSED (tea-agg): {ex} -/")
     siblings, names = {}, []
-    for name in FNS:
+    for name in FNS + EXT_FNS:
         try:
-            if tsrc is None:
+            the_src = tsrc if name in FNS else etsrc
+            if the_src is None:
                 raise C.Unsupported("no trait")
-            sig, body = fn_src(tsrc, name)
+            sig, body = fn_src(the_src, name)
             txt, rt, np, two = translate(name, sig, body, siblings)
             if not two:
                 siblings[name] = (f"{name}.run", rt, np)
